@@ -430,17 +430,55 @@ var errorTexts = []string{
 	`leaf-list l { type nosuch; }`, `choice ch { leaf l { type nosuch; } }`, `list li { key k; leaf k { type nosuch; } }`,
 }
 
+// builtinNames: the names of the built-in types. Behind a prefix - the module's own, that of an
+// imported module, an undeclared one - such a name is a reference to a typedef that cannot exist
+// (no typedef may take a built-in name): an error, never the built-in type.
+var builtinNames = strings.Fields("binary bits boolean decimal64 empty enumeration identityref instance-identifier int8 int16 int32 int64 leafref string uint8 uint16 uint32 uint64 union")
+
+func init() {
+	for _, n := range append(append([]string{}, builtinNames...), "nosuch", "bt2") {
+		for _, p := range []string{"m", "b", "q"} {
+			if n == "nosuch" && p == "m" {
+				continue
+			}
+			ref := p + ":" + n
+			body := ""
+			switch n {
+			case "enumeration":
+				body = " { enum e; }"
+			case "bits":
+				body = " { bit e; }"
+			case "union":
+				body = " { type string; }"
+			case "decimal64":
+				body = " { fraction-digits 2; }"
+			case "identityref":
+				body = " { base i; }"
+			case "leafref":
+				body = " { path \"/m:pad\"; }"
+			}
+			t := "type " + ref + body
+			if body == "" {
+				t += ";"
+			}
+			errorTexts = append(errorTexts, "leaf l { "+t+" }", "typedef t { "+t+" } leaf l { type t; }", "leaf l { type union { type int8; "+t+" } }", "grouping g { leaf l { "+t+" } } container c { uses g; }", "leaf-list l { "+t+" }")
+		}
+	}
+}
+
 type ErrInput struct {
 	Body string `json:"body"`
 	Sub  bool   `json:"in_submodule"`
 }
 
+var errB = dump.File{Name: "b.yang", Text: `module b { namespace "urn:b"; prefix b; typedef bt { type int8; } container bc { typedef bt2 { type int8; } } }`}
+
 func errFiles(in ErrInput) []dump.File {
 	if in.Sub {
-		return []dump.File{{Name: "m.yang", Text: `module m { namespace "urn:m"; prefix m; include s; leaf pad { type string; } }`},
-			{Name: "s.yang", Text: `submodule s { belongs-to m { prefix m; } ` + in.Body + ` }`}}
+		return []dump.File{{Name: "m.yang", Text: `module m { namespace "urn:m"; prefix m; include s; identity i; leaf pad { type string; } }`},
+			{Name: "s.yang", Text: `submodule s { belongs-to m { prefix m; } import b { prefix b; } ` + in.Body + ` }`}, errB}
 	}
-	return []dump.File{{Name: "m.yang", Text: `module m { namespace "urn:m"; prefix m; ` + in.Body + ` }`}}
+	return []dump.File{{Name: "m.yang", Text: `module m { namespace "urn:m"; prefix m; import b { prefix b; } identity i; leaf pad { type string; } ` + in.Body + ` }`}, errB}
 }
 
 func checkErr(in ErrInput) *fail {
